@@ -305,3 +305,4 @@ PROP = C05()
 
 PROP.rule += (" Strata added while closing seeded changes (DESIGN section 10): "
               "'#' lines and page-break/separator characters in ~Other, titles glued to the section word or mentioning _DATA/_PARAMETER/_DEFINITION, custom titles with '_', stray unparsable last lines read with ignore_header_errors=True, reads into a used LASFile.")
+PROP.rule += ' Round 8: physical data lines longer than 4096 / 8192 characters.'
